@@ -82,11 +82,11 @@ def run(pid, tier, replay):
     open(obs, "w").close()
     if add_trees(raw, obs) != n:
         raise core.ToolError("harness answered fewer lines than the %d cases" % n)
-    nr = 1500 if quick else 60000
+    nr = 1200 if quick else 60000
     rraw = chk.path("obs_rand_raw.ndjson")
     core.run_bin(binp, ["xml-rand", nr, chk.seed, rraw])
     add_trees(rraw, obs)
-    out, lines = rm.validate(chk, "XmlCheck", obs, shards=12, tags=("MISMATCH", "NOTE"))
+    out, lines = rm.validate(chk, "XmlCheck", obs, shards=4 if quick else 14, tags=("MISMATCH", "NOTE"))
     classify(chk, out["MISMATCH"], lines)
     chk.add("enumerated_cases", n)
     chk.add("random_cases", len(lines) - n)
